@@ -57,6 +57,13 @@ def grid(ctx, per_problem=None):
     for pol in ("fifo", "lifo"):
         out.append({"kind": "de_moor", "params": {"max_demand": 7, "demand_gamma_mean": 2.5, "demand_gamma_cov": 0.5, "max_useful_life": 3, "lead_time": 2, "max_order_quantity": 2,
                                                   "variable_order_cost": 3.0, "shortage_cost": 5.0, "wastage_cost": 7.0, "holding_cost": 1.0, "issue_policy": pol}})
+    # long order pipelines (lead time 3 and 4: newest and oldest in-transit orders are different entries)
+    for L, m in ((3, 2), (4, 1)):
+        out.append({"kind": "de_moor", "params": {"max_demand": 5, "demand_gamma_mean": 2.5, "demand_gamma_cov": 0.5, "max_useful_life": m, "lead_time": L, "max_order_quantity": 2,
+                                                  "variable_order_cost": 3.0, "shortage_cost": 5.0, "wastage_cost": 7.0, "holding_cost": 1.0, "issue_policy": "fifo" if L == 3 else "lifo"}})
+    # product A can hold more stock than product B (tables indexed by the wrong product's range would be too short)
+    out.append({"kind": "hendrix", "params": {"max_useful_life": 2, "max_order_quantity_a": 3, "max_order_quantity_b": 1, "demand_poisson_mean_a": 2.0, "demand_poisson_mean_b": 0.5,
+                                              "substitution_probability": 0.5, "variable_order_cost_a": 0.5, "variable_order_cost_b": 0.25, "sales_price_a": 1.0, "sales_price_b": 2.0}})
     out.append({"kind": "hendrix", "params": {"max_useful_life": 2, "max_order_quantity_a": 2, "max_order_quantity_b": 3, "demand_poisson_mean_a": 2.0, "demand_poisson_mean_b": 5.0,
                                               "substitution_probability": 0.25, "variable_order_cost_a": 0.5, "variable_order_cost_b": 0.25, "sales_price_a": 1.0, "sales_price_b": 2.0}})
     return out
